@@ -14,6 +14,7 @@ def _c(id, episodes, max_steps, policies, ctor=None, **kw):
 class Adapter(EnvAdapter):
     name = "Snake"
     props = ("C01", "C03", "C04", "C05", "C07", "C08", "C09", "C10", "C11", "C12")
+    gen_heavy = {'r2c2': (80, 600), 'r2c3': (80, 600), 'r3c5': (40, 300)}
 
     def configs(self, tier):
         # time-limit sweep ("for every value passed", C11): one surviving episode per value, no probes
